@@ -142,6 +142,23 @@ func (e *encoder) enc(sb *strings.Builder, v reflect.Value) {
 			e.enc(sb, v.Field(i))
 		}
 		sb.WriteString(")")
+	case reflect.Interface:
+		if v.IsNil() {
+			sb.WriteString("inil")
+			return
+		}
+		d := v.Elem()
+		if d.Kind() == reflect.Ptr {
+			if er, ok := Readable(d).Interface().(error); ok {
+				sb.WriteString("i(error " + strconv.Quote(er.Error()) + ")")
+			} else {
+				fmt.Fprintf(sb, "i(%s@%#x)", d.Type(), d.Pointer())
+			}
+			return
+		}
+		sb.WriteString("i(" + d.Type().String() + " ")
+		e.enc(sb, d)
+		sb.WriteString(")")
 	default:
 		panic("vref: Encode unsupported kind " + v.Kind().String())
 	}
